@@ -50,6 +50,23 @@ def _first_cell(rows):
     return None
 
 
+def _refusal(f):
+    """observation of something that must be refused: 'refused' or what came back instead"""
+    try:
+        r = f()
+    except Exception:
+        return "refused"
+    return "accepted: %s" % (r.tolist() if hasattr(r, "tolist") else r,)
+
+
+def _bad_partner(x, a):
+    """a ragged array with the same number of cells as x but other row lengths (one cell moved from row a[0] to row a[1])"""
+    lens = [int(l) for l in x.lengths]
+    lens[a[0]] -= 1
+    lens[a[1]] += 1
+    return CTX.lib.RaggedArray(np.asarray(x.ravel()).copy(), lens)
+
+
 OBS = {
     "tolist": (lambda x, a: x.tolist(), lambda r, a: [list(q) for q in r]),
     "iter": (lambda x, a: [q.tolist() for q in x], lambda r, a: [list(q) for q in r]),
@@ -80,6 +97,8 @@ OBS = {
     "elem": (lambda x, a: x[a[0], a[1]].item(), lambda r, a: r[a[0]][a[1]]),
     "rowscol": (lambda x, a: x[(a[0] if isinstance(a[0], np.ndarray) else list(a[0])), a[1]].tolist(), lambda r, a: [r[i][a[1]] for i in np.asarray(a[0]).tolist()]),
     "pairs": (lambda x, a: x[a[0], a[1]].tolist(), lambda r, a: [r[i][j] for i, j in zip(np.asarray(a[0]).tolist(), np.asarray(a[1]).tolist())]),
+    "elem_oob": (lambda x, a: _refusal(lambda: x[a[0], a[1]]), lambda r, a: "refused"),
+    "badadd": (lambda x, a: _refusal(lambda: (x == _bad_partner(x, a)) if a[2] else (_bad_partner(x, a) == x)), lambda r, a: "refused"),
     "ell": (lambda x, a: x[...].tolist(), lambda r, a: [list(q) for q in r]),
     "empty": (lambda x, a: x[()].tolist(), lambda r, a: [list(q) for q in r]),
     "maskidx": (lambda x, a: x[x > np.int64(a)].tolist(), lambda r, a: [v for q in r for v in q if v > a]),
@@ -104,7 +123,7 @@ OBS = {
 MATERIALISING = {"tolist", "iter", "ravel", "sum1", "npsum1", "sumall", "nonzero", "add1", "eqself", "cumsum", "sort", "diff", "zeros", "concatself", "astype", "save"}
 READ_OPS = [k for k in OBS]
 # observations whose result on float data (NaN, inf, -0.0, non-dyadic values) is defined element by element, hence exactly predictable
-FLOAT_OBS = ["tolist", "iter", "ravel", "meta", "repr", "str", "row", "elem", "rowscol", "pairs", "ell", "empty", "maskidx", "subset", "padded", "nonzero", "add1", "sel", "rslice",
+FLOAT_OBS = ["tolist", "iter", "ravel", "meta", "repr", "str", "row", "elem", "rowscol", "pairs", "elem_oob", "badadd", "ell", "empty", "maskidx", "subset", "padded", "nonzero", "add1", "sel", "rslice",
              "getcol", "colcounts", "tonp", "astype", "concatself", "zeros", "diff", "save"]
 FLOAT_READS = FLOAT_OBS + ["sum1", "npsum1", "sumall", "any1", "eqself", "where", "max1", "sort", "unique", "mean1", "mean0", "all1", "min1"]     # fine as *inserted reads* (no model opinion needed)
 FLOAT_POOL = [0.1, 0.7, 1e17, 1.0, -2.5, 3.25, float("inf"), float("nan"), -0.0, 0.3, 123456.789, -1e-7, float("-inf"), 2.0]
@@ -122,6 +141,10 @@ def obs_applicable(name, rows):
         return n > 0
     if name in ("elem", "rowscol", "pairs"):
         return tot > 0
+    if name == "elem_oob":
+        return n > 0
+    if name == "badadd":
+        return n >= 2 and tot > 0
     if name == "padded":
         return n > 0
     if name == "tonp":
@@ -156,6 +179,15 @@ def obs_arg(rng, name, rows):
         rs = [k if rng.random() < 0.5 else k - n for k in rs]
         dt = rng.choice([np.int64, np.int32, np.intp])
         return [np.array(rs, dtype=dt), np.array(cs, dtype=dt)]
+    if name == "elem_oob":
+        # a column that does not exist in that row (one past its end / one before its start): for rows that are not the last one the
+        # flat position still lies inside the buffer, so only a real bounds check refuses it
+        i = rng.randrange(n)
+        return [i if rng.random() < 0.5 else i - n, lens[i] if rng.random() < 0.5 else -lens[i] - 1]
+    if name == "badadd":
+        src = rng.choice([k for k in range(n) if lens[k]])
+        dst = rng.choice([k for k in range(n) if k != src])
+        return [src, dst, rng.random() < 0.5]
     if name == "getcol":
         return rng.randint(0, max(lens) - 1)
     if name in ("maskidx", "subset", "where"):
